@@ -452,6 +452,7 @@ func genMath(w *lib.Writer, r *lib.Rand, tier string) {
 	}
 	checkHuge(w)
 	genPowExact(w)
+	genKnownValues(w)
 	// thin wrappers against Go's math, bit for bit (sign of zero, NaN-ness): every pool and grid value for
 	// the unary ones, the full grid x grid for the binary ones (special values as base AND exponent), then
 	// random arguments; argument order and arity
@@ -525,6 +526,52 @@ func powExact(w *lib.Writer, x, y, exact float64) {
 	w.Add(lib.Case{Input: c, Class: "math.pow:exact", Nontrivial: true, KF: []string{"C15-13"},
 		Observed: map[string]any{"result": fmt.Sprintf("%.17g", got), "exact": fmt.Sprintf("%.17g", exact)},
 		Coq: fmt.Sprintf("CGoSide2 %s %s", lib.CoqBool(impl), lib.CoqBool(spec))})
+}
+
+// knownValue records a Go-side case whose definition value is known independently of any library
+// (spec) next to what Go's math gives (impl = the wrapper is still Go's function); a case is emitted
+// only when the two part, tagged with the open finding.
+func knownValue(w *lib.Writer, c mathIn, got, goWant, exact, tol float64, kf string) {
+	impl := sameFloat(got, goWant)
+	spec := sameFloat(got, exact) || (tol > 0 && relClose(got, exact, tol))
+	if impl && spec {
+		w.Meta.GoOnlyChecked++
+		w.Meta.Distribution[c.Fn+"(known value,go-side)"]++
+		return
+	}
+	w.Add(lib.Case{Input: c, Class: c.Fn + ":known-value", Nontrivial: true, KF: []string{kf},
+		Observed: map[string]any{"result": fmt.Sprintf("%.17g", got), "exact": fmt.Sprintf("%.17g", exact)},
+		Coq: fmt.Sprintf("CGoSide2 %s %s", lib.CoqBool(impl), lib.CoqBool(spec))})
+}
+
+func call1(fn string, xs ...float64) float64 {
+	args := make([]lua.LValue, len(xs))
+	for i, x := range xs {
+		args[i] = lua.LNumber(x)
+	}
+	res, errs := callMath(fn, args...)
+	if errs == "" && len(res) == 1 {
+		if n, ok := res[0].(lua.LNumber); ok {
+			return float64(n)
+		}
+	}
+	return math.NaN()
+}
+
+// genKnownValues: (C15-13) pow with a huge exponent on a base next to 1, against the identity
+// x^y = exp(y*log1p(x-1)) (Go's repeated squaring loses the 7th digit); (C15-14) sin/cos whose
+// argument reduction needs more bits of pi than Go's: sin(fl(pi)) = pi - fl(pi), cos(fl(pi)/2) =
+// (pi - fl(pi))/2 (to all 17 digits), and the classical worst case cos(6381956970095103 * 2^797) =
+// -4.68716592425462761e-19 (Muller et al., Handbook of Floating-Point Arithmetic).
+func genKnownValues(w *lib.Writer) {
+	for _, p := range [][2]float64{{1.0000000001, 1e12}, {1.00000001, 1e10}, {0.9999999999, 1e12}, {1.000001, 5e8}} {
+		x, y := p[0], p[1]
+		knownValue(w, mIn("pow", x, y), call1("pow", x, y), math.Pow(x, y), math.Exp(y*math.Log1p(x-1)), 1e-10, "C15-13")
+	}
+	big := math.Ldexp(6381956970095103, 797)
+	knownValue(w, mIn("cos", big), call1("cos", big), math.Cos(big), -4.68716592425462761e-19, 1e-15, "C15-14")
+	knownValue(w, mIn("sin", math.Pi), call1("sin", math.Pi), math.Sin(math.Pi), 1.2246467991473532e-16, 1e-15, "C15-14")
+	knownValue(w, mIn("cos", math.Pi/2), call1("cos", math.Pi/2), math.Cos(math.Pi/2), 6.123233995736766e-17, 1e-15, "C15-14")
 }
 
 func genPowExact(w *lib.Writer) {
